@@ -554,6 +554,20 @@ class Inliner(object):
             outer = ast.If(test=st.test.values[0], body=[inner], orelse=[], lineno=st.lineno, col_offset=0)
             ast.fix_missing_locations(outer)
             return [outer]
+        # if A or H(..): LEAVE      ->      if A: LEAVE ; if H(..): LEAVE         (LEAVE one break / continue / return / raise
+        # without a call: the second test is reached exactly when A is false)
+        if isinstance(st, ast.If) and not st.orelse and isinstance(st.test, ast.BoolOp) and isinstance(st.test.op, ast.Or) \
+                and len(st.test.values) >= 2 and not self._has_helper_call(st.test.values[0], local) \
+                and any(self._has_helper_call(v, local) for v in st.test.values[1:]) and len(st.body) == 1 \
+                and isinstance(st.body[0], (ast.Break, ast.Continue, ast.Return, ast.Raise)) \
+                and not any(isinstance(n, ast.Call) for n in ast.walk(st.body[0])):
+            rest = st.test.values[1:]
+            second_test = rest[0] if len(rest) == 1 else ast.BoolOp(op=ast.Or(), values=rest)
+            first = ast.If(test=st.test.values[0], body=[copy.deepcopy(st.body[0])], orelse=[], lineno=st.lineno, col_offset=0)
+            second = ast.If(test=second_test, body=st.body, orelse=[], lineno=st.lineno, col_offset=0)
+            ast.fix_missing_locations(first)
+            ast.fix_missing_locations(second)
+            return [first, second]
         if isinstance(st, ast.For):
             rep = self.for_over_generator(st, local)
             if rep is not None:
@@ -780,6 +794,88 @@ def _inline_new_constants(tree, ref_tree):
     return done
 
 
+def _generator_methods_to_closures(tree, class_methods):
+    """A new private *generator* method mentioned once in its class, as ``self._m(a, b)`` with plain names for
+    arguments inside a simple statement of another method, is the closure it was extracted from: ``def _m(): BODY``
+    (parameters spelled as the arguments) defined just before that statement and called without arguments.  Calling a
+    generator function runs nothing of its body, and the body of either reads ``self`` and the arguments' objects only
+    when iterated.  Conditions: the arguments are not re-bound in the caller after the call, the body does not re-bind
+    its parameters, and no free name of the body is a local of the caller."""
+    done = []
+    for cls in [c for c in tree.body if isinstance(c, ast.ClassDef)]:
+        for name, meth in list(class_methods.get(cls.name, {}).items()):
+            if not any(isinstance(x, (ast.Yield, ast.YieldFrom)) for x in ast.walk(meth)):
+                continue
+            if any(isinstance(x, FuncTypes) and x is not meth for x in ast.walk(meth)):
+                continue
+            a = meth.args
+            if a.vararg or a.kwarg or a.kwonlyargs or a.defaults or a.posonlyargs:
+                continue
+            refs = [n for n in ast.walk(tree) if isinstance(n, ast.Attribute) and n.attr == name]
+            strs = [n for n in ast.walk(tree) if isinstance(n, ast.Constant) and n.value == name]
+            if len(refs) != 1 or strs:
+                continue
+            host = None
+            for m2 in cls.body:
+                if isinstance(m2, FuncTypes) and m2 is not meth and any(x is refs[0] for x in ast.walk(m2)):
+                    host = m2
+            if host is None or not host.args.args or host.args.args[0].arg != "self":
+                continue
+            call = None
+            for n in ast.walk(host):
+                if isinstance(n, ast.Call) and n.func is refs[0]:
+                    call = n
+            if call is None or call.keywords or not (isinstance(refs[0].value, ast.Name) and refs[0].value.id == "self") \
+                    or len(call.args) != len(a.args) - 1 or not all(isinstance(x, ast.Name) for x in call.args):
+                continue
+            params = [x.arg for x in a.args]
+            if params[0] != "self":
+                continue
+            mapping = dict(zip(params[1:], [x.id for x in call.args]))
+            body_stores = {n.id for n in ast.walk(meth) if isinstance(n, ast.Name) and isinstance(n.ctx, (ast.Store, ast.Del))}
+            if body_stores & (set(params) | set(mapping.values())):
+                continue
+            # the statement of the host that holds the call: a simple statement of its top-level body
+            site = None
+            for i, st in enumerate(host.body):
+                if any(x is call for x in ast.walk(st)):
+                    site = i
+            if site is None or isinstance(host.body[site], (ast.For, ast.While, ast.If, ast.Try, ast.With) + FuncTypes):
+                continue
+            if any(any(x is call for x in ast.walk(n)) for n in ast.walk(host.body[site])
+                   if isinstance(n, (ast.Lambda, ast.GeneratorExp, ast.ListComp, ast.SetComp, ast.DictComp))):
+                continue
+            later_stores = {n.id for s2 in host.body[site:] for n in ast.walk(s2)
+                            if isinstance(n, ast.Name) and isinstance(n.ctx, (ast.Store, ast.Del))}
+            if later_stores & (set(mapping.values()) | {"self"}):
+                continue
+            host_bound = {n.id for n in ast.walk(host) if isinstance(n, ast.Name) and isinstance(n.ctx, (ast.Store, ast.Del))} \
+                | {x.arg for x in host.args.args + host.args.kwonlyargs} \
+                | {n.name for n in ast.walk(host) if isinstance(n, FuncTypes) and n is not host}
+            free = {n.id for n in ast.walk(meth) if isinstance(n, ast.Name) and isinstance(n.ctx, ast.Load)} - body_stores - set(params)
+            if free & host_bound or name in host_bound:
+                continue
+            body = [copy.deepcopy(x) for x in docstring_free(meth.body)]
+            for b_ in body:
+                for n in ast.walk(b_):
+                    if isinstance(n, ast.Name) and n.id in mapping:
+                        n.id = mapping[n.id]
+            local = ast.FunctionDef(name=name, args=ast.arguments(posonlyargs=[], args=[], vararg=None, kwonlyargs=[],
+                                                                  kw_defaults=[], kwarg=None, defaults=[]),
+                                    body=body, decorator_list=[], returns=None, type_comment=None,
+                                    lineno=host.body[site].lineno, col_offset=host.body[site].col_offset)
+            try:
+                local.type_params = []
+            except Exception:
+                pass
+            call.func = ast.Name(id=name, ctx=ast.Load())
+            call.args = []
+            host.body.insert(site, local)
+            ast.fix_missing_locations(host)
+            done.append(name)
+    return done
+
+
 def inline_new_helpers(tree, ref_tree, hier=None):
     """Inline, inside ``tree``, private helpers that ``ref_tree`` does not define.  Returns the names inlined."""
     ref_top = {s.name for s in ref_tree.body if isinstance(s, FuncTypes)}
@@ -853,6 +949,7 @@ def inline_new_helpers(tree, ref_tree, hier=None):
             inl = Inliner(others, {})
             run_inliner(inl, h, set())
     visit(tree.body, [], None)
+    done.extend(_generator_methods_to_closures(tree, class_methods))
     # drop helpers that nothing references any more
     removed = []
     for _ in range(4):
